@@ -97,6 +97,33 @@ let enc_xq = function
   | XInf true -> "q-inf"
   | XNaN -> "qnan"
 
+(* decimal printing of a binary N by repeated division (only used for a handful of tokens per case) *)
+let big_dec (n : n) : string =
+  match n with
+  | N0 -> "0"
+  | Npos p ->
+    let h = hex_of_pos p in
+    (* hex -> decimal via base-1e9 limbs *)
+    let limbs = ref [0] in
+    String.iter (fun c ->
+        let carry = ref (hexval c) in
+        limbs := List.map (fun l -> let v = l * 16 + !carry in carry := v / 1000000000; v mod 1000000000) !limbs;
+        if !carry > 0 then limbs := !limbs @ [!carry]) h;
+    let l = List.rev !limbs in
+    (match l with
+     | [] -> "0"
+     | x :: r -> string_of_int x ^ String.concat "" (List.map (Printf.sprintf "%09d") r))
+
+let n_of_dec (s : string) : n =
+  (* decimal string -> N via hex conversion in base 16 limbs *)
+  let digits = ref [0] in   (* little-endian base 65536 limbs *)
+  String.iter (fun c ->
+      let carry = ref (Char.code c - 48) in
+      digits := List.map (fun l -> let v = l * 10 + !carry in carry := v / 65536; v mod 65536) !digits;
+      if !carry > 0 then digits := !digits @ [!carry]) s;
+  let hex = String.concat "" (List.rev_map (Printf.sprintf "%04x") !digits) in
+  match pos_of_hex hex with None -> N0 | Some p -> Npos p
+
 let kw_str = function
   | Ksize -> "size" | Kbar -> "|" | KX -> "X" | Klbrace -> "{" | Krbrace -> "}" | Ksemi -> ";"
   | Klbrack -> "[" | Krbrack -> "]" | Ktaxa -> "taxa" | Kcells -> "cells" | Kbranches -> "branches"
@@ -109,6 +136,7 @@ let tok_str = function
   | TStr s -> enc_str s
   | TLen l -> enc_xq l
   | TBits b -> "b" ^ String.concat "" (List.map (fun x -> if x then "1" else "0") b)
+  | TBig n -> big_dec n
   | TRs r -> "r" ^ String.concat "." (List.map (function C c -> string_of_int (int_of_n c) | Lv l -> enc_xq l) r)
 
 let err_str = function
@@ -221,8 +249,8 @@ let parse_op (a : string list) : op option =
   | "layout" :: _ -> Some OLayout
   | ["rt_newick"] -> Some ORtNewick
   | ["rt_fmt"; k] -> Some (ORtFmt (fmt_of_nat (nat k)))
-  | ["tril"; n; i; j] -> Some (OTril (nat n, nat i, nat j))
-  | ["rowvec"; n; k] -> Some (ORowvec (nat n, nat k))
+  | ["tril"; n; i; j] -> if String.length i > 3 || String.length j > 3 then Some (OTrilN (n_of_dec i, n_of_dec j)) else Some (OTril (nat n, nat i, nat j))
+  | ["rowvec"; n; k] -> if String.length k > 3 then Some (ORowvecN (n_of_dec k)) else Some (ORowvec (nat n, nat k))
   | op :: args ->
     let mop = (match strip_prefix "m32_" op with
         | Some x -> Some x
